@@ -979,7 +979,7 @@ func init() {
 		Run: ruleTxnReset,
 	})
 	register(&Rule{
-		ID: "NODE-CONVERT", Props: []string{"C11"}, Floor: 6,
+		ID: "NODE-CONVERT", Props: []string{"C11", "C03", "C04", "C17"}, Floor: 6,
 		Doc: "every node built from another node's header (promotion in header.promote, demotion in removeChild) takes over the source's leaf, sets its kind and is stamped with a txnID",
 		Run: ruleNodeConvert,
 	})
